@@ -39,6 +39,10 @@ func simpleProp(r *Rand) M {
 func GenSpec(r *Rand, edits int) (M, []string) {
 	nd := r.Range(2, 4)
 	names := append([]string(nil), defNames[:nd]...)
+	if r.Chance(150) {
+		// definition names that look like schema keywords: paths such as definitions.items / x.properties.default
+		names[len(names)-1] = pick(r, []string{"items", "properties", "default", "example"})
+	}
 	defs := M{}
 	for i, n := range names {
 		d := M{"type": "object"}
@@ -231,13 +235,16 @@ func applyEdit(r *Rand, doc M, kind int) string {
 			d["required"] = append(req, "nope"+n)
 			return "required-undefined:" + n
 		}
-	case 2: // duplicate operation id
-		_, _, a := anyOp()
-		_, _, b := anyOp()
-		if a != nil && b != nil {
-			b["operationId"] = a["operationId"]
-			return "dup-opid"
+	case 2: // duplicate operation ids: one or two distinct ids, each used twice
+		mk := func(id string) M {
+			return M{"get": M{"operationId": id, "responses": M{"200": M{"description": "ok"}}}}
 		}
+		sfx := fmt.Sprint(r.Intn(3))
+		paths["/dupa1"+sfx], paths["/dupa2"+sfx] = mk("dupA"+sfx), mk("dupA"+sfx)
+		if r.Chance(600) {
+			paths["/dupb1"+sfx], paths["/dupb2"+sfx] = mk("dupB"+sfx), mk("dupB"+sfx)
+		}
+		return "dup-opid"
 	case 3: // path parameter not declared
 		for _, p := range pn {
 			if strings.Contains(p, "{") {
